@@ -54,7 +54,7 @@ PROPS = {
             "Knot types (Rust-derived recursive types) do not cross the protocol; they are covered through TypeContainer environments in C01/C12",
             "service_compatible is exercised on sources printed by candid::pretty::candid::compile; its parser/checker are the subject of C12-C14",
         ],
-        "partial": ["completeness (every subtyping of the specification is accepted, given enough depth budget) and the upgrade check service_compatible / merge_type are established by correspondence with the executable greatest-fixed-point oracle only; theorems now cover soundness of the algorithm for all environments whose names resolve: accepted from an empty memo, accepted after any history of successful checks, and for whole sequences sharing one memo"],
+        "partial": ["transitivity, which the property claims, is FALSE for the relation of the specification at a record field of type null (theorem subtyping_is_not_transitive_at_a_null_field; known finding KF-C05-transitivity-null-field, replayed on the implementation by sub.trans); away from that shape it is checked on all triples of the small types only. Completeness (every subtyping of the specification is accepted, given enough depth budget) and the upgrade check service_compatible / merge_type are established by correspondence with the executable greatest-fixed-point oracle only; theorems now cover soundness of the algorithm for all environments whose names resolve: accepted from an empty memo, accepted after any history of successful checks, and for whole sequences sharing one memo"],
     },
     "C02": {
         "profiles": ["debug"],
@@ -74,7 +74,7 @@ PROPS = {
             "expected environments never define names of the form table<i> except in the targeted corpus case",
         ],
         "partial": [
-            "de.rs itself is tied to its mirror De.lean by the correspondence only. Proved about the mirror, for all inputs: (only if) what it accepts is a well-formed message; (if, first-order types: no function/service reference within reach, fields in ascending id order) decoding any value the specification's reader M^-1 accepts - padded LEB128 included - at any expected type returns exactly the specification's coercion and leaves what the reader leaves, or both report a subtype failure, unless a depth budget runs out; argument sequences and whole messages against Wire.decodeArgs. Not a theorem: the same with reference types in the expected or wire type (the decoder turns an exhausted checker budget into a subtype failure; needs the checker's termination bound), and metered runs directly (C07's theorems relate them to unmetered runs)",
+            "de.rs itself is tied to its mirror De.lean by the correspondence only. Proved about the mirror, for all inputs: (only if) what it accepts is a well-formed message; (if; expected types first order - no function/service reference within reach -, wire types arbitrary, fields in ascending id order) decoding any value the specification's reader M^-1 accepts - padded LEB128 included - at any expected type returns exactly the specification's coercion and leaves what the reader leaves, or both report a subtype failure, unless a depth budget runs out; argument sequences and whole messages against Wire.decodeArgs. Both halves are combined under any quotas (what decodeWithConfig returns is a well-formed message's coerced values). Not a theorem: the same with reference types in the expected type (the decoder turns an exhausted checker budget into a subtype failure; needs the checker's termination bound), and metered runs directly (C07's theorems relate them to unmetered runs)",
         ],
     },
     "C03": {
@@ -228,7 +228,7 @@ PROPS = {
         ],
         "assumptions": ["hash-map iteration order is not deterministic: for HashMap types vectors are compared as multisets"],
         "partial": [
-            "the memo-history invariance of T::ty() up to type equality is not a theorem (the memo is a thread-local of the Rust library); it is exercised through random call histories. Proved: the leaf round trips the native primitives rest on, including u128 and Nat through their decoders",
+            "the memo-history invariance of T::ty() up to type equality is not a theorem (the memo is a thread-local of the Rust library); it is exercised through random call histories. Proved on the native decoder mirror, for every Rust type of the grammar (primitives, 128-bit integers in range, big numbers, text, principals, function and service references, options, vectors through all element paths, arrays, bounded vectors, tuples, maps, derived structs and enums, named recursive types) and every value: native decoding of what the writer produced returns exactly the value and leaves exactly what followed",
         ],
     },
     "C08": {
